@@ -282,6 +282,16 @@ class Ctx:
             return False, "forbidden tokens in Lean sources:\n" + "\n".join(bad)
         if not aok:
             return False, "axiom audit failed:\n" + "\n".join(problems)
+        if self.tier == "thorough":
+            # independent re-check of the compiled .olean files of the property modules
+            rechecked, failed = [], []
+            for rel in props:
+                mod = rel[:-5].replace("/", ".")
+                r = sh(["lake", "env", "leanchecker", mod], cwd=LEAN)
+                (rechecked if r.returncode == 0 else failed).append(mod)
+            self.cov["leanchecker_rechecked"] = rechecked
+            if failed:
+                return False, "leanchecker rejected: " + ", ".join(failed)
         return True, log
 
     # ----------------------------------------------------------- correspondence
